@@ -674,6 +674,14 @@ def r5_application(rep, src):
     set_parents(f_node)
     f = Func(f.module, f_node, f.qual, f.cls)
     params = f.params()
+    # the list the commands are applied to: the caller's list itself, or a copy of it that replaces the caller's content at the end
+    caller_list = params[0]
+    work = caller_list
+    for st in f.node.body:
+        if isinstance(st, ast.Assign) and len(st.targets) == 1 and isinstance(st.targets[0], ast.Name) \
+                and norm(st.value) in ('list(%s)' % caller_list, '%s[:]' % caller_list, '%s.copy()' % caller_list, 'copy.copy(%s)' % caller_list):
+            work = st.targets[0].id
+    params = [work] + list(params[1:])
     loops = [s for s in f.node.body if isinstance(s, ast.For)]
     if len(loops) > 1:
         # several passes over the script: the one that changes the lines is judged (a pass that only inspects the commands decides
@@ -683,6 +691,32 @@ def r5_application(rep, src):
     if len(loops) != 1:
         raise AnalysisError('%s: expected one loop that changes the lines' % f.site)
     lp = loops[0]
+    if work != caller_list:
+        back = [st for st in f.node.body[f.node.body.index(lp) + 1:] if isinstance(st, ast.Assign) and norm(st) in ('%s[:] = %s' % (caller_list, work),)]
+        if back:
+            rep.ok('C18.R5', f.site, 'the patched copy replaces the content of the list', norm(back[0]), nontrivial=False)
+        else:
+            rep.fail('C18.R5', f.site, 'the patched copy replaces the content of the list', 'the commands are applied to the copy `%s`, which is never written back into `%s` '
+                     '(the function updates the list in place)' % (work, caller_list), where=f.where)
+    # a refused script leaves the list as it was: no raise is reachable once the caller's list has been changed (a range check inside
+    # the loop that changes the list in place raises after the earlier commands have been applied)
+    g_ = cfg.CFG(f.node)
+    changers = [n_ for n_ in g_.nodes if n_.ast is not None and n_.kind == 'stmt' and (
+        (isinstance(n_.ast, (ast.Assign, ast.AugAssign, ast.Delete)) and any(
+            isinstance(t_, ast.Subscript) and norm(t_.value) == caller_list and isinstance(t_.ctx, (ast.Store, ast.Del)) for t_ in ast.walk(n_.ast)))
+        or (isinstance(n_.ast, ast.Expr) and isinstance(n_.ast.value, ast.Call) and isinstance(n_.ast.value.func, ast.Attribute)
+            and norm(n_.ast.value.func.value) == caller_list and n_.ast.value.func.attr in ('append', 'extend', 'insert', 'pop', 'remove', 'clear', 'sort', 'reverse')))]
+    raises = [n_ for n_ in g_.nodes if n_.ast is not None and isinstance(n_.ast, ast.Raise)]
+    if not changers:
+        raise AnalysisError('%s: no statement changes the list `%s`' % (f.site, caller_list))
+    late = [(c_, r_) for c_ in changers for r_ in raises if g_.exists_path(c_.id, r_.id)]
+    if late:
+        c_, r_ = late[0]
+        rep.fail('C18.R5', f.site, 'a refused script leaves the list unchanged', 'the raise at line %d is reachable after `%s` (line %d) has changed the caller\'s list: for a script whose '
+                 'later command is refused (an address beyond the end: "3a / y / . / 9d" on three lines) ValueError is raised with the earlier commands already applied'
+                 % (r_.lineno, norm(c_.ast)[:40], c_.lineno), where='%s:%d' % (f.module.relpath, r_.lineno))
+    else:
+        rep.ok('C18.R5', f.site, 'a refused script leaves the list unchanged', '%d raise statement(s), none reachable after the first change of `%s`' % (len(raises), caller_list))
     why = 'the patches are not applied one by one in script order'
     # what the loop iterates over: the parameter itself, or the parameter materialised (list(p) / tuple(p), directly or through a local)
     pre = f.node.body[:f.node.body.index(lp)]
